@@ -155,6 +155,53 @@ func lalrkGram3(r *rand.Rand) (*Gram, int) {
 	return g, 2
 }
 
+// lalrkGram4: (a) a conflict whose rules also end a SECOND, no-eoi input (the "any terminal may
+// follow" marker takes part in the lookahead computation): S -> A x | B a c ; N(no-eoi) -> A | B a b ;
+// A -> e ; B -> e; (b) one alternative ENDS inside the lookahead window, so end-of-input is the
+// deciding token: S -> A a | B a b ; A -> e ; B -> e, also with the short alternative behind a
+// nonterminal and with a longer shared context.
+func lalrkGram4(r *rand.Rand) (*Gram, int) {
+	g := &Gram{Shape: "lalrk4", NT: 6}
+	a, b, cc, e, x := 1, 2, 3, 4, 5
+	s, A, B := g.NT, g.NT+1, g.NT+2
+	g.NN = 3
+	switch r.Intn(3) {
+	case 0:
+		n := g.NT + g.NN
+		g.NN++
+		g.Shape = "lalrk4-noeoi"
+		g.Rules = []GRule{
+			{LHS: s, RHS: []int{A, x}}, {LHS: s, RHS: []int{B, a, cc}},
+			{LHS: n, RHS: []int{A}}, {LHS: n, RHS: []int{B, a, b}},
+			{LHS: A, RHS: []int{e}}, {LHS: B, RHS: []int{e}},
+		}
+		g.Inputs = []GInput{{Sym: s, Eoi: true}, {Sym: n, Eoi: false}}
+		return g, 2
+	case 1:
+		g.Shape = "lalrk4-eoi-decides"
+		g.Rules = []GRule{
+			{LHS: s, RHS: []int{A, a}}, {LHS: s, RHS: []int{B, a, b}},
+			{LHS: A, RHS: []int{e}}, {LHS: B, RHS: []int{e}},
+		}
+		if r.Intn(2) == 0 { // the short alternative behind a nonterminal
+			t := g.NT + g.NN
+			g.NN++
+			g.Rules[0].RHS = []int{A, t}
+			g.Rules = append(g.Rules, GRule{LHS: t, RHS: []int{a}})
+		}
+		g.Inputs = []GInput{{Sym: s, Eoi: true}}
+		return g, 2
+	default:
+		g.Shape = "lalrk4-eoi-decides-k3"
+		g.Rules = []GRule{
+			{LHS: s, RHS: []int{A, a, cc}}, {LHS: s, RHS: []int{B, a, cc, b}},
+			{LHS: A, RHS: []int{e}}, {LHS: B, RHS: []int{e}},
+		}
+		g.Inputs = []GInput{{Sym: s, Eoi: true}}
+		return g, 3
+	}
+}
+
 func c07(c *Ctx) {
 	c.Rule = "grammars built to need 2-4 tokens of lookahead (two reductions of one RHS whose contexts share a prefix made of terminals, terminal-deriving and nullable nonterminals; two conflict states whose rows differ only in the nested lookahead table; a third of the grammars also compiled with MinimizeDFA for the sentences check) plus random CFGs, compiled by the real lalr.Compile with Lookahead k in 2..4; for each grammar that compiles without error: (1) Lean recomputes LALR(k) lookahead strings by item propagation, walks every lookahead automaton in the tables on every string, and checks the two certificates that are the hypotheses of C07_lr_sound_k / C07_lr_complete_k / C07_lr_exact_k (past-certificate against every leaf of every lookahead automaton; LR(k)-item certificate) on the real tables, (2) all token strings up to length 5 + random sentences/mutations are run through the Lean parser model on the real tables and compared with a brute-force recogniser; (3) end to end: a few of these grammars plus one with an acknowledged conflict (%expect-rr) next to a resolved one go through the real compiler and generator, the generated parsers are run on all token strings up to length 5 and compared with the recogniser (accept/reject, termination); non-trivial = UsedLADepth > 0; distinct by grammar"
 	c07EndToEnd(c)
@@ -164,10 +211,12 @@ func c07(c *Ctx) {
 		k := 2 + c.Rng.Intn(3)
 		if c.Rng.Intn(4) != 0 {
 			var need int
-			if r := c.Rng.Intn(6); r == 0 {
+			if r := c.Rng.Intn(7); r == 0 {
 				g, need = lalrkGram2(c.Rng)
 			} else if r == 1 {
 				g, need = lalrkGram3(c.Rng)
+			} else if r == 2 {
+				g, need = lalrkGram4(c.Rng)
 			} else {
 				g, need = lalrkGram(c.Rng)
 			}
